@@ -246,6 +246,14 @@ def fine_jobs(tag, focus, s, tier, work, cfg=None, weights=None):
     return pool_jobs(tag + "fine", focus, s + 13, nt, nops, work, cfg=c, weights=weights, chunks=1 if tier == "quick" else 4)
 
 
+def magnitude_jobs(tag, focus, s, tier, work, weights=None):
+    """one session per order of magnitude of the money unit (10^0..10^30 and powers of two): the product elapsed
+    nanoseconds x price walks across every machine-word boundary"""
+    nt, nops = sized(tier, (31, 30), (124, 50))
+    return pool_jobs(tag + "mag", focus, s + 29, nt, nops, work, cfg=dict(unitsweep=0, minbal="off"), weights=weights,
+                     chunks=1, drivers=("memory",) if tier == "quick" else ("memory", "badger"))
+
+
 def pxx(pid, tier, work, replay):
     """development aid: full conformance of the pool to VipPool (focus all)"""
     s = C.seed()
@@ -309,7 +317,8 @@ c02 = pool_prop(
     cfg=dict(longsleep=True),
     weights=dict(update=50, sleep=20, forged=2, withdraw=1, peer=4, close=1, reopen=1, mode=1, stale=1, addnode=6, reconnect=6),
     extra_jobs=lambda s, tier, work: stack_jobs("c02", "C02", s, tier, work) + fine_jobs(
-        "c02", "C02", s, tier, work, weights=dict(update=50, sleep=25, forged=1, addnode=5, reconnect=6, peer=2)))
+        "c02", "C02", s, tier, work, weights=dict(update=50, sleep=25, forged=1, addnode=5, reconnect=6, peer=2)) + magnitude_jobs(
+        "c02", "C02", s, tier, work, weights=dict(update=55, sleep=30, forged=1, addnode=4, reconnect=4, peer=1, withdraw=0, status=0, stats=0)))
 
 c03 = pool_prop(
     "c03", "C03",
@@ -691,7 +700,7 @@ def c16(pid, tier, work, replay):
         pid, tier, work, "VipDispatch", "VipDispatch.cfg", [], runs,
         "complete table: 3 registrations (all methods, allow-list, single method) x 9 names (4 methods + helper in registered / capitalised / "
         "bare forms, unexported method, method with unexported argument type, unknown, empty) x parameter shapes (absent, null, object, string, "
-        "number, arrays of every arity 0..n+1 with at most one position of the wrong JSON kind or null) = 960 probes of the real Server.Handle, "
+        "number, arrays of every arity 0..n+1 with at most one position of the wrong JSON kind or null) = 1344 probes of the real Server.Handle, "
         "counting invocations; plus every exported method name of VipnodePool, PaymentService and PoolStatus (obtained by reflection) under both "
         "prefixes and casings sent to the built `vipnode pool` binary over HTTP and over WebSocket",
         ["a JSON null in a parameter position is not a type error (Go decodes it to the zero value)"],
